@@ -10,8 +10,13 @@
 /* c_ is the address of the caller's cursor variable, outside the buffer */
 #define CURSOR_REF_OK (__CPROVER_w_ok(c_, sizeof(*c_)) && !__CPROVER_same_object(c_, verif_buf))
 #define CURSOR_PRE  (BUF_OK && CURSOR_REF_OK && CUR_IN_BUF(*c_))
-/* the cursor stays inside the buffer and never moves backwards */
-#define CURSOR_POST (IN_BUF(*c_) && OFF(*c_) >= OFF(__CPROVER_old(*c_)))
+/* the cursor stays inside the buffer and never moves backwards.
+   (CUR_IN_BUF = pointer_in_range_dfcc says the same as IN_BUF; it is there
+   for the callers that see this contract instead of the body: a pointer that
+   is havocked and then merely ASSUMED to lie in the buffer is not tracked by
+   CBMC's points-to analysis - reading through it returns arbitrary bytes -
+   whereas the pointer predicate assigns it.) */
+#define CURSOR_POST (CUR_IN_BUF(*c_) && IN_BUF(*c_) && OFF(*c_) >= OFF(__CPROVER_old(*c_)))
 #define CURSOR_INV  (IN_BUF(*c_) && OFF(*c_) >= OFF(__CPROVER_loop_entry(*c_)))
 #define CUR_SKIPPED      SKIPPED(__CPROVER_old(*c_), *c_)
 #define CUR_SKIPPED_INV  SKIPPED(__CPROVER_loop_entry(*c_), *c_)
